@@ -1,9 +1,9 @@
 (* C14 — Copy never writes outside the destination root nor reads outside the source root.
-   INTERIM: the lexical half ("symlinks in path arguments are resolved as if each root
-   were '/'": copy.rootPath and fs.RootPath start from filepath.Join("/", p)) is proved
-   here; the syscall-level containment theorem copy_contained over the file-system model
-   is listed as unproved in props/C14.json and is decided, for now, by the specification
-   oracle evaluated on real copy.Copy runs inside a chroot jail with a sentinel tree. *)
+   The lexical half (copy.rootPath and fs.RootPath start from filepath.Join("/", p)), the shape of
+   fs.RootPath's result, and the syscall-level containment theorems copy_rec_contained /
+   copy_contained over the file-system model (writes stay at or below dstRoot) are proved here;
+   the source-side statement (reads stay below srcRoot) is listed as unproved in props/C14.json and
+   is decided by the specification oracle on real copy.Copy runs inside a chroot jail. *)
 From Coq Require Import List NArith Bool.
 From FS Require Import Sx Model.Path Model.Fs Model.RootPath Model.CopyFs Model.CopyFsSpec
   Proofs.Lex Proofs.PathP Proofs.CleanP Proofs.RootPathP Proofs.RootPathWitnessP Proofs.CopyContainedP
@@ -112,40 +112,47 @@ Proof. vm_compute. repeat split. Qed.
    directory below it; [fs_wf] = allocation counter above all numbers in use, unique proper entry
    names, one parent entry per directory, no directory below itself. *)
 
-(* copier.copy / copyDirectory (copy_rec) into "<dstRoot>/cs/x" where cs are real directories:
-   whatever the source, the options, the symlinks and hard links below, of the inodes that existed
-   before only DIRECTORIES at or below dstRoot can have changed: no file anywhere (not even one
-   inside dstRoot that is also linked from outside), no directory outside, not dstRoot's entry in
-   its parent. *)
+(* copier.copy / copyDirectory (copy_rec) into "<dstRoot>/cs/pend/x" where cs are real directories
+   and pend are the parents whose creation is deferred (IncludePatterns: the uncopied entries of
+   the parentDirs stack ps are exactly the paths "<dstRoot>/cs/p1", "<dstRoot>/cs/p1/p2", …;
+   whatever lies at those names in the destination — symlinks to the outside included):
+   whatever the source, the options, the selector (ANY include / exclude functions), the symlinks
+   and hard links below, of the inodes that existed before only DIRECTORIES at or below dstRoot can
+   have changed: no file anywhere (not even one inside dstRoot that is also linked from outside),
+   no directory outside, not dstRoot's entry in its parent. *)
 Theorem copy_rec_contained :
-  forall fuel c o src ow f0 dr dcs cs x d s' r,
+  forall fuel c o sl src comps ow pinc pexc f0 dr dcs cs pend x d ps s' r,
     fs_wf f0 ->
     forallb name_ok dcs = true -> chain f0 (c_root c) dcs dr -> (length dcs < rfuel)%nat ->
-    forallb name_ok cs = true -> name_ok x = true -> chain f0 dr cs d ->
-    copy_rec fuel c o src (render (dcs ++ cs ++ [x])) ow (cst_init f0) = (s', r) ->
+    forallb name_ok cs = true -> forallb name_ok pend = true -> name_ok x = true -> chain f0 dr cs d ->
+    uncopied_targets ps = deferred_targets dcs cs pend ->
+    copy_rec fuel c o sl src comps (render (dcs ++ cs ++ pend ++ [x])) ow pinc pexc (cst_with_parents f0 ps) = (s', r) ->
     forall i, (i < f_next f0)%N -> ~ inside_dir f0 dr i -> get (s_fs s') i = get f0 i.
 Proof. exact copy_rec_contained_proof. Qed.
 Print Assumptions copy_rec_contained.
 
 (* Copy (copy_top): argument resolution through fs.RootPath, MkdirAll, prepareTargetDir, the loop
    over the (wildcard) sources, copier.copy with the hard-link map (forgetLinkSources) and the
-   deferred fixCreatedParentDirs (stillBelow) — the code as repaired after the escapes this proof
-   found (corpus/C14/hardlink-path-reresolved.case, created-dir-path-replaced.case).
+   deferred fixCreatedParentDirs (stillBelow), include / exclude selection with the deferred
+   parents (createParentDirs BEFORE removeTargetIfNeeded) — the code as repaired after the escapes
+   found (corpus/C14/hardlink-path-reresolved.case, created-dir-path-replaced.case,
+   deferred-parent-symlink.case).
    For every well-formed file system, every option set of the model (follow-links, always-replace,
-   dir-contents, chown, utime, mode), every source / destination argument and EVERY list of wildcard
-   matches: of the inodes that existed before, only directories at or below dstRoot can have
+   dir-contents, chown, utime, mode), every selector (osl = None: invalid patterns; Some sl: ANY
+   include / exclude functions — the matcher is a parameter), every source / destination argument
+   and EVERY list of wildcard matches: of the inodes that existed before, only directories at or below dstRoot can have
    changed.  Hence nothing outside dstRoot changes: no outside file or directory (content, metadata,
    entries), no inode hard-linked from outside, not dstRoot's own entry in its parent.
    srcRoot and dstRoot are clean absolute paths whose components are real directories; srcRoot is
    dstRoot or lies outside it; no NUL byte in the source arguments. *)
 Theorem copy_contained :
-  forall fuel c o scs src dcs dst matches f0 dr sr s' res,
+  forall fuel c o osl scs src dcs dst matches f0 dr sr s' res,
     fs_wf f0 ->
     forallb name_ok dcs = true -> chain f0 (c_root c) dcs dr -> (length dcs < rfuel)%nat ->
     forallb name_ok scs = true -> chain f0 (c_root c) scs sr -> (length scs < rfuel)%nat ->
     (scs = dcs \/ ~ inside_dir f0 dr sr) ->
     has_nul src = false -> (forall l, matches = Some l -> forallb (fun m => negb (has_nul m)) l = true) ->
-    copy_top fuel c o (render scs) src (render dcs) dst matches (cst_init f0) = (s', res) ->
+    copy_top fuel c o osl (render scs) src (render dcs) dst matches (cst_init f0) = (s', res) ->
     forall i, (i < f_next f0)%N -> ~ inside_dir f0 dr i -> get (s_fs s') i = get f0 i.
 Proof. exact copy_contained_proof. Qed.
 Print Assumptions copy_contained.
@@ -183,3 +190,14 @@ Example copy_examples :
   /\ map (fun e => fst (fst e)) (tree_below 8 (s_fs (fst wC_run)) 5 []) = [[103]; [104]]
   /\ resolve_ino ctx_init (s_fs (fst wC_run)) [47;100;47;103] true = inl 13.
 Proof. vm_compute. repeat split. Qed.
+
+(* non-vacuity of the deferred-parent case: the witness of corpus/C14/deferred-parent-symlink.case on
+   the model of the repaired order.  /o/d/a (inode 4) is outside, /d/b -> /o/d; Copy("/s", "/", "/d",
+   "/") with IncludePatterns ["b/a"], AlwaysReplaceExistingDestPaths, CopyDirContents reports the
+   conflict at /d/b and /o/d/a is still there, unchanged. *)
+Example copy_deferred_parent_example :
+  (exists e, snd wD_run = inr e)
+  /\ resolve_ino ctx_init wD [47;111;47;100;47;97] false = inl 4
+  /\ resolve_ino ctx_init (s_fs (fst wD_run)) [47;111;47;100;47;97] false = inl 4
+  /\ get (s_fs (fst wD_run)) 4 = get wD 4.
+Proof. vm_compute. repeat split. eexists; reflexivity. Qed.
